@@ -1,6 +1,7 @@
 #!/bin/bash
 # runs every check of MANIFEST.json (quick or thorough) sequentially; prints exit code and wall time per property
 TIER=${1:-quick}
+mkdir -p "$(dirname "$0")/../out"
 cd "$(dirname "$0")/.."
 for p in $(python3 -c "import json;print(' '.join(c['property_id'] for c in json.load(open('MANIFEST.json'))['checks']))"); do
   s=$(date +%s)
